@@ -243,6 +243,9 @@ def shard(desc):
         typ = rng.choice(SINGLE + PAIR)
         ar = 2 if typ in PAIR else 1
         n = rng.randint(4200, 9000)
+        if i == 0 and desc.get('verylong'):
+            n = rng.randint(66000, 80000)      # one piece beyond 2^16 items in a single extend / collect call
+            res.count('very_long_piece_cases')
         xs, _ = gen.sequence(rng, n=n)
         data = pair_values(rng, typ, n) if ar == 2 else xs
         c, marks = ingestion_case('%s-%d' % (desc['name'], cid), typ, data, ar, rng, splits=(rng.randint(1, 12), rng.randint(12, 40)))
@@ -318,12 +321,12 @@ def run(tier, seed):
             nsh = common.NPROC * mult
             descs = [{'name': '%s%d' % (variant[0], s), 'variant': variant, 'binary': binary,
                       'nseq': max(1, int(nseq * frac) // nsh), 'nshort': max(1, int(nshort * frac) // nsh),
-                      'nlongpiece': 3, 'nhuge': 6,
+                      'nlongpiece': 3, 'nhuge': 6, 'verylong': s < 4 and variant == 'release',
                       'seed': seed * 1000003 + s * 7919 + sum(map(ord, variant))} for s in range(nsh)]
             total.merge(common.run_shards(shard, descs))
     except common.Inconclusive as e:
         total.inconclusive.append(str(e))
-    need = {'long_piece_cases': 20, 'huge_count_cases': 40, 'path_comparisons': 5000, 'estimate_checks': 2000, 'concatenate_comparisons': 2000, 'all_split_cases': 200}
+    need = {'long_piece_cases': 20, 'very_long_piece_cases': 4, 'huge_count_cases': 40, 'path_comparisons': 5000, 'estimate_checks': 2000, 'concatenate_comparisons': 2000, 'all_split_cases': 200}
     for t in SINGLE + PAIR:
         need['cases_%s' % t] = 50
     return common.finish(PROP, tier, seed, total, RULE, t0, ASSUME, min_events=need,
